@@ -168,6 +168,11 @@ def correspond(ctx):
 # ---------------------------------------------------------------------------
 
 SNAP_SIG = 'Path.cropped/both ends snapped past each other at one joint'
+HALF_SIG = 'arc piece spanning a half turn: centre snapped (C04 finding F29)'
+
+
+def _half_turn(delta_deg):
+    return abs(abs(delta_deg) - 180.0) < 0.02
 
 
 def _snapped_across(path, T0, T1):
@@ -260,6 +265,12 @@ def sample(ctx, budget=1.0, hint=None, broken=None):
                  'svgpathtools.%s.split(%r)' % (desc, t))
         for u in us:
             if abs(a.point(u) - seg.point(u * t)) > tol or abs(b.point(u) - seg.point(t + u * (1 - t))) > tol:
+                if kind == 'arc' and (_half_turn(seg.delta * t) or _half_turn(seg.delta * (1 - t))):
+                    fail(HALF_SIG, 'a piece of an arc that spans a half turn up to ~0.01 degrees is rebuilt by the Arc constructor inside the snap band of C04 finding F29 '
+                         '(radicand below 1e-8 replaced by 0): its centre is snapped to the chord midpoint and its points are off by up to 1e-4 of the radius',
+                         {'seg': desc, 't': t, 'u': u}, repr((a.point(u), b.point(u))), repr((seg.point(u * t), seg.point(t + u * (1 - t)))),
+                         '[s.point(%r) for s in svgpathtools.%s.split(%r)]' % (u, desc, t))
+                    break
                 fail('%s.split/points' % kind, 'split(t) pieces are not the two restrictions', {'seg': desc, 't': t, 'u': u},
                      repr((a.point(u), b.point(u))), repr((seg.point(u * t), seg.point(t + u * (1 - t)))),
                      '[s.point(%r) for s in svgpathtools.%s.split(%r)]' % (u, desc, t))
@@ -276,6 +287,10 @@ def sample(ctx, budget=1.0, hint=None, broken=None):
         ctol = tol
         for u in us:
             if abs(cr.point(u) - seg.point(t0 + u * (t1 - t0))) > ctol:
+                if kind == 'arc' and _half_turn(seg.delta * (t1 - t0)):
+                    fail(HALF_SIG, 'a piece of an arc that spans a half turn up to ~0.01 degrees is rebuilt by the Arc constructor inside the snap band of C04 finding F29',
+                         {'seg': desc, 't0': t0, 't1': t1, 'u': u}, repr(cr.point(u)), repr(seg.point(t0 + u * (t1 - t0))), 'svgpathtools.%s.cropped(%r, %r).point(%r)' % (desc, t0, t1, u))
+                    break
                 fail('%s.cropped/points' % kind, 'cropped(t0,t1).point(u) != point(t0+u(t1-t0))', {'seg': desc, 't0': t0, 't1': t1, 'u': u},
                      repr(cr.point(u)), repr(seg.point(t0 + u * (t1 - t0))), 'svgpathtools.%s.cropped(%r, %r).point(%r)' % (desc, t0, t1, u))
                 break
